@@ -194,9 +194,7 @@ theorem tail_eq (cb : Nat) (negative : Bool) (s : List Char) :
 
 /-- spec after sign stripping -/
 def coreS (base : Nat) (neg : Bool) (s : List Char) : Option Int :=
-  let pref : Option (Nat × List Char) := match s with
-    | '0' :: c :: r => (sigilOf c).map (fun pb => (pb, r))
-    | _ => none
+  let pref : Option (Nat × List Char) := prefOf s
   let (b, digits) : Nat × List Char :=
     match pref with
     | some (pb, r) => if base == 0 || base == pb then (pb, r) else (base, s)
@@ -312,20 +310,20 @@ theorem core_eq (base : Nat) (neg : Bool) (s1 : List Char) :
   by_cases hne : s1.isEmpty = true
   · have : s1 = [] := by simpa using hne
     subst this
-    simp [coreM, coreS, resVal, parseDigits]
+    simp [coreM, coreS, prefOf, resVal, parseDigits]
   · have hne' : s1.isEmpty = false := by simpa using hne
     -- does s1 start with a recognised sigil?
     rcases s1 with _ | ⟨c0, _ | ⟨c1, rest⟩⟩
     · simp at hne
     · -- single character
       rw [coreM_nosigil base neg [c0] hne' (by simp [stripSigil])]
-      simp [coreS]
+      simp [coreS, prefOf]
     · by_cases h0 : c0 = '0'
       · subst h0
         cases hsg : sigilOf c1 with
         | none =>
           rw [coreM_nosigil base neg _ hne' (by simp [stripSigil, hsg])]
-          simp [coreS, hsg]
+          simp [coreS, prefOf, hsg]
         | some cb =>
           have hcb := sigilOf_ne_zero hsg
           by_cases hign : (base != 0 && base != cb) = true
@@ -334,7 +332,7 @@ theorem core_eq (base : Nat) (neg : Bool) (s1 : List Char) :
               simp only [Bool.and_eq_true, bne_iff_ne, ne_eq] at hign; simpa using hign.1
             have hbc : (base == cb) = false := by
               simp only [Bool.and_eq_true, bne_iff_ne, ne_eq] at hign; simpa using hign.2
-            simp [coreS, hsg, hb0, hbc]
+            simp [coreS, prefOf, hsg, hb0, hbc]
           · have hcond : (base == 0 || base == cb) = true := by
               cases hb0 : (base == 0) <;> cases hbc : (base == cb) <;> simp_all
             unfold coreM
@@ -343,21 +341,20 @@ theorem core_eq (base : Nat) (neg : Bool) (s1 : List Char) :
             by_cases hre : rest.isEmpty = true
             · have : rest = [] := by simpa using hre
               subst this
-              simp [coreS, hsg, hcond, resVal, parseDigits]
+              simp [coreS, prefOf, hsg, hcond, resVal, parseDigits]
             · simp only [hre, Bool.false_eq_true, ↓reduceIte]
               have hcb0 : (cb == 0) = false := by simpa using hcb
               simp only [hcb0, Bool.false_and, Bool.false_eq_true, ↓reduceIte]
               rw [tail_eq]
-              simp [coreS, hsg, hcond]
+              simp [coreS, prefOf, hsg, hcond]
               cases parseDigits cb rest <;> simp
       · rw [coreM_nosigil base neg _ hne' (by
           unfold stripSigil
           split
           · rename_i heq; simp at heq; exact absurd heq.1 h0
           · rfl)]
-        have : (match (c0 :: c1 :: rest : List Char) with
-            | '0' :: c :: r => (sigilOf c).map (fun pb => (pb, r))
-            | _ => none) = none := by
+        have : prefOf (c0 :: c1 :: rest) = none := by
+          unfold prefOf
           split
           · rename_i heq; simp at heq; exact absurd heq.1 h0
           · rfl
@@ -370,7 +367,7 @@ theorem intFromString_spec (str : List Char) (base : Nat) :
   simp only
   by_cases h0 : (trimSpace str).isEmpty = true
   · have : trimSpace str = [] := by simpa using h0
-    simp [this, resVal, stripSign, coreS, parseDigits]
+    simp [this, resVal, stripSign, coreS, prefOf, parseDigits]
   · simp only [h0, Bool.false_eq_true, ↓reduceIte]
     exact core_eq _ _ _
 
